@@ -220,6 +220,9 @@ def local_gp_fitting(
     Local GP approximation on current point. It updates the priors hyper-parameters and re-fit the Gaussian Process
     """
 
+    # Previous (consistent) training set, kept in case the posterior cannot be recomputed
+    prev_X, prev_y, prev_s2 = gp.X, gp.y, gp.s2
+
     # Update the GP training set by setting the NEAREST neighbors (Matlab: gpTrainingSet)
     gp.X, gp.y, s2 = get_grid_search_neighbors(
         function_logger, current_point, gp, options, optim_state
@@ -482,7 +485,13 @@ def local_gp_fitting(
             "bads:local_gp_fitting: posterior GP update failed. Singular matrix for L Cholesky decomposition"
         )
         gp.set_priors(old_priors)
-        gp.set_hyperparameters(old_hyp_gp)
+        try:
+            gp.set_hyperparameters(old_hyp_gp)
+        except np.linalg.LinAlgError:
+            # Even the previous hyperparameters fail on the new training
+            # set: keep the previous GP (training set and posterior)
+            gp.X, gp.y, gp.s2 = prev_X, prev_y, prev_s2
+            gp.set_hyperparameters(old_hyp_gp)
         # gp.set_hyperparameters(iteration_history.get('gp_hyp_full')[-1])
         exit_flag = -2
 
@@ -1179,12 +1188,20 @@ def add_and_update_gp(
     gp : GP
         The updated Gaussian process.
     """
+    prev_X, prev_y, prev_s2 = gp.X, gp.y, gp.s2
+    prev_hyp = gp.get_hyperparameters(as_array=True)
     gp.X = np.concatenate((gp.X, np.atleast_2d(x_new)))
     gp.y = np.concatenate((gp.y, np.atleast_2d(y_new)))
     if options["specify_target_noise"] and sd_new is not None:
         gp.s2 = np.concatenate((gp.s2, np.atleast_2d(sd_new) ** 2))
 
-    gp.update(compute_posterior=True)
+    try:
+        gp.update(compute_posterior=True)
+    except np.linalg.LinAlgError:
+        # Singular covariance with the new point: keep the previous posterior
+        # (the point is in the log and enters at the next local refit)
+        gp.X, gp.y, gp.s2 = prev_X, prev_y, prev_s2
+        gp.update(hyp=prev_hyp, compute_posterior=True)
 
     # Missing port: intmean part
     # TODO how is handled the user defined noise
